@@ -144,7 +144,7 @@ func (C07) Execute(t *testing.T, sc *core.Scenario) *core.Result {
 	}()
 	durable := map[int]bool{} // canonical chunk index -> committed (or added through a table file)
 	pending := map[int]bool{} // put since the last commit / rejection / reopen
-	var persisted hash.Hash  // the model's persisted root
+	var persisted hash.Hash   // the model's persisted root
 	rejections, dangerous := 0, 0
 	taint := "" // set once the store accepted a dangling table file: later dangling states are its consequences
 	sig := core.NewSig()
